@@ -30,6 +30,13 @@ def _translate(run):
         return None
 
 
+def _violation(run, site, klass, what, case, cap=3):
+    """record a failing input; at most `cap` per (site, class) are written out (all are counted)"""
+    run.count("failing inputs: %s / %s" % (site, klass), section="oracle")
+    if run.cov["oracle"]["failing inputs: %s / %s" % (site, klass)] <= cap:
+        run.violation(site, klass, what, case)
+
+
 class Parser:
     """Runs cases through the real parser and collects the requests for the Lean model."""
 
@@ -57,6 +64,14 @@ class Parser:
         """queue a model request for a case whose real outcome is `real`"""
         if real.kind == "exit" and real.args is None and info.get("argv") is not None:
             return  # argparse rejected the command line: nothing reaches the settings parser
+        if real.kind == "exc" and real.where == "read_file":
+            # the text of the conf file never reaches the merge (the model starts from the parsed lines):
+            # an uncaught exception of read_file on a well-formed line is a failing input of its own
+            self.run.count("read_file raised (reported by the oracle)", section="correspondence")
+            lines = info.get("conf") or []
+            _violation(self.run, SITE, "conf-value-with-equals-crashes" if any(l.count("=") > 1 for l in lines) else "conf-file-crashes",
+                       "reading the conf file %s raises %s" % (lines, real.detail), dict(info))
+            return
         line, toks = U.encode_case(self.tab, variant, entries, real.args)
         if line is None:
             # some value is rejected by its own branch of _parse_conf: the whole run must stop
@@ -234,7 +249,7 @@ def parser_checks(run, tb, tmp):
     targets = {t: set(tab.targets(t)) for t in tb["code_tags"]}
 
     def viol(klass, what, case):
-        run.violation(SITE, klass, what, case)
+        _violation(run, SITE, klass, what, case)
 
     # ------------------------------------------------------------------ rows of the table, both routes
     nrows = 0
@@ -487,6 +502,8 @@ def parser_checks(run, tb, tmp):
                 if d:
                     zero = _is_numeric_zero(tab, tag, v2)
                     klass = "falsy-numeric-option-dropped" if zero else "option-does-not-override-file"
+                    if "exc" in (r_both.kind, r_opt.kind) and (r_both.where == "read_file" or r_opt.where == "read_file"):
+                        continue  # read_file raised: already reported by P.model
                     if not zero and r_both.kind == "ok" and r_opt.kind == "ok":
                         # residue: every differing attribute is one the option's value does not set at all
                         # (option-only leaves the default) and the combined run keeps what the file's value set
@@ -509,7 +526,23 @@ def _run_model(run, P, tab):
     if len(out) != len(lines):
         run.broke("correspondence", "driver answered %d lines for %d requests" % (len(out), len(lines)))
         return
-    run.cov["correspondence"]["table certificates (progGuarded numericNotTruthy)"] = out[0]
+    run.cov["correspondence"]["table certificates"] = out[0]
+    cert = dict(x.split("=", 1) for x in out[0].split()) if "=" in out[0] else {}
+    classes = {v["class"] for v in run.violations} | {k.get("class") for k in run.known}
+    if cert.get("guarded") != "true":
+        run.broke("certificate", "Table.progGuarded is false on the generated table: an assignment of _set_settings is not under a guard that needs a parameter "
+                  "(absent_option_keeps_file does not apply)")
+    if cert.get("numericNotTruthy") != "true":
+        names = [tab.tb["dests"][int(i)] for i in cert.get("truthyNumeric", "").split(",") if i]
+        run.cov["correspondence"]["numeric options tested by truthiness (F14)"] = names
+        if "falsy-numeric-option-dropped" not in classes:
+            run.broke("certificate", "Table.numericNotTruthy is false (%s) but the oracle found no dropped option value" % names)
+    non_iso = {tab.tb["tags"][int(i)] for i in cert.get("nonIsolated", "").split(",") if i}
+    dependent = sorted(non_iso & {"qpoints_format", "moment_order"})
+    if dependent:
+        run.cov["correspondence"]["conf keys guarded by another setting's attribute"] = dependent
+        if "mixed-route-drops-setting" not in classes:
+            run.broke("certificate", "%s are not isolated in the generated table but the oracle found no mixed-route failing input" % dependent)
     for which, ans in zip(["tags", "keys", "attrs", "dests", "strs", "fns"], out[1:7]):
         if ans.split(",") != [n for n in tab.tb[which]]:
             run.broke("correspondence", "the compiled Gen/SettingsTable.lean is not the table of this run (%s differ)" % which)
